@@ -147,10 +147,98 @@ def c20_jobs(tier):
     return jobs
 
 
+DEC_LOOPCPY = {"read.c": {"memcpy": "vmemcpy"}, "dns.c": {"memcpy": "vmemcpy"}}
+
+
+def depth_subst(d):
+    return [(r"return readname_loop\(packet, packetlen, src, dst, length, 10\);",
+             "return readname_loop(packet, packetlen, src, dst, length, %d);" % d)]
+
+
+# client-side decoder tables scaled for the 2-safety cells (the real sizes are used by the C06 shaped cell)
+def dec_shrink(vrd, vn):
+    return [(r"char rdata\[4\*1024\];", "char rdata[%d];" % vrd),
+            (r"char names\[250\]\[QUERY_NAME_SIZE\];", "char names[%d][QUERY_NAME_SIZE];" % vn),
+            (r"pref < 2500", "pref < %d" % (vn * 10))]
+
+
+QTYPES = [("NULL", 10), ("PRIVATE", 65399), ("TXT", 16), ("SRV", 33), ("MX", 15), ("CNAME", 5), ("A", 1)]
+
+
+DEC_STUB = {"read.c": {"memcpy": "vmemcpy"}, "dns.c": {"memcpy": "vmemcpy", "readname": "vstub_readname"}}
+
+
+def decode_jobs(tier, checks=False, tag=""):
+    """dns_decode with the name reader replaced by its contract (lemma B); 2-safety + (optionally) safety checks."""
+    q = tier == "quick"
+    pb = 40 if q else 56
+    jobs = [Job("decode%s-query-PB%d" % (tag, pb), "C12_decode.c", defs={"QR": 0, "PB": pb, "STUBNAME": 1}, units=["dns.c", "read.c"],
+                hunits=["vlibc_mem.c"], unit_defs=DEC_STUB, checks=checks,
+                loops={"strncpy": 258, "strlen": 258}, unwind=pb + 2, timeout=1500,
+                desc="server side: dns_decode(QR_QUERY) twice on buffers equal on [0,len), different beyond (name reader = contract stub)",
+                bounds="receive buffer %d bytes, datagram 0..%d bytes fully symbolic" % (pb, pb),
+                functions=["dns_decode", "readshort"])]
+    pb0 = pb
+    for name, t in QTYPES:
+        pb = pb0 - 6 if name == "TXT" else pb0      # the TXT string loop is the most expensive cell
+        jobs.append(Job("decode%s-answer-%s-PB%d" % (tag, name, pb), "C12_decode.c",
+                        defs={"QR": 1, "QTYPE": t, "PB": pb, "STUBNAME": 1},
+                        units=["dns.c", "read.c"], hunits=["vlibc_mem.c"], unit_defs=DEC_STUB, checks=checks,
+                        subst=dec_shrink(48, 3),
+                        loops={"strncpy": 258, "strlen": 258, "dns_decode": 6, "readtxtbin": pb - 26}, unwind=pb + 10, timeout=1500,
+                        desc="client side: dns_decode(QR_ANSWER) twice, question section concrete (type %s), answer section symbolic "
+                             "(name reader = contract stub)" % name,
+                        bounds="receive buffer %d bytes, datagram 19..%d bytes; rdata scaled to 48 bytes, MX/SRV name table scaled "
+                               "to 3 entries" % (pb, pb),
+                        functions=["dns_decode", "readdata", "readtxtbin", "readshort", "readlong"]))
+    return jobs
+
+
+def readname_jobs(tier):
+    q = tier == "quick"
+    cells = [(8, 2)] if q else [(10, 2), (8, 3)]
+    return [Job("readname-PL%d-D%d" % (pl, d), "C12_readname.c", defs={"PL": pl, "D": d, "DLEN": 14}, units=[],
+                loops={"readname_loop.0": pl + 1, "readname_loop.1": pl // 2 + 3}, unwind=16, timeout=2400, object_bits=12,
+                solver="minisat2",
+                desc="readname_loop twice on buffers equal on [0,len), different beyond; standard memory/UB checks on",
+                bounds="receive buffer %d bytes, datagram 0..%d bytes, start offset 0..len, destination length 3..14, "
+                       "compression depth budget %d" % (pl, pl, d),
+                functions=["readname_loop"]) for pl, d in cells]
+
+
+def c06_jobs(tier):
+    return decode_jobs(tier, checks=True, tag="-safe")[1:]
+
+
+def c12_jobs(tier):
+    return readname_jobs(tier) + decode_jobs(tier)
+
+
 HOOK_COMMITS = []
 PENDING = {}
 
 PROPS = {
+    "C06": {
+        "jobs": c06_jobs, "level": "model_checking",
+        "level_text": "CBMC's memory-safety/UB instrumentation (bounds, pointer validity, pointer overflow, signed overflow, shifts) "
+                      "plus unwinding assertions on the client's real reply path, split into lemmas: name reader, record decoder "
+                      "per type, reply post-processing, handshake parsers; every reply byte symbolic within the bound.",
+        "level_note": "see per-job bounds; name reader replaced by its contract in the decoder cells (contract proved in the readname job).",
+        "explanation": "each job is one SAT query over all replies within its bound",
+        "assumptions": ["recvfrom/select stubs deliver an arbitrary datagram", "malloc does not fail", "warnx/fprintf are no-ops"],
+    },
+    "C12": {
+        "jobs": c12_jobs, "level": "model_checking",
+        "level_text": "2-safety by self-composition on the real decoder: two receive buffers that agree on the datagram and differ "
+                      "arbitrarily beyond it must give identical results (return value, name, type, id, rcode, payload); one SAT "
+                      "query per cell covers every datagram up to the bound and every residue.",
+        "level_note": "datagrams <= 36/48 (query) and <= 40/52 (answer) bytes, compression depth budget 3/4 (query) and 2 (answer) instead of 10, "
+                      "answer cells with a concrete question section and scaled rdata/name tables; raw frames and the echo sites are "
+                      "covered through the server step harness (C05).",
+        "explanation": "non-interference of the residue is asserted directly on the two runs",
+        "assumptions": ["read.c/dns.c compiled with memcpy->byte loop (vmemcpy) for tractability", "compression-pointer depth budget reduced (stated per job)",
+                        "warnx is a no-op"],
+    },
     "C20": {
         "jobs": c20_jobs, "level": "model_checking",
         "level_text": "Ring lemma by bounded symbolic execution from the initial state (more than 16 outstanding forwards, ids free "
